@@ -77,7 +77,7 @@ func dropObjects(rt *caseRT) []dropObj {
 }
 
 type c04Stats struct {
-	events, objects, racing, stops, atStart, seekZeroNoEvent int
+	events, objects, racing, stops, atStart, seekZeroNoEvent, trailing int
 	orders                                                  map[string]struct{}
 	shardCounts                                             map[int]int
 }
@@ -178,6 +178,21 @@ func checkC04(rt *caseRT, st *c04Stats) []vio {
 			if f, ok := firstEnter[r.srcV]; !ok || r.enterT < f {
 				firstEnter[r.srcV] = r.enterT
 			}
+		}
+	}
+	rt.mu.Unlock()
+	// rows written behind the drop message of their own object (same shard, same pack, later timestamp)
+	rt.mu.Lock()
+	for _, ep := range rt.emitted {
+		for _, m := range ep.Msgs {
+			if sp, ok := rt.msgSpec[m.UID]; ok && sp.AfterDrop {
+				add("C04/data-of-dropped-object-emitted-after-its-drop-message", fmt.Sprintf("uid=%d (%s, collection %s partition index %d, shard %d) was written behind the drop message of its object in the same pack and was emitted", m.UID, sp.Kind, c.Colls[sp.Coll].Name, sp.Part, sp.Shard))
+			}
+		}
+	}
+	for _, sp := range rt.msgSpec {
+		if sp.AfterDrop {
+			st.trailing++
 		}
 	}
 	rt.mu.Unlock()
